@@ -1,1 +1,88 @@
-fn main() {}
+//! W8 + W9 — CSPTP world (C44, C45) and GPSd world (C40) in one binary (DESIGN.md §4).
+
+mod csptp;
+mod gpsd;
+mod ptpwire;
+
+use simkit::batch::{cli_main, Level, Property, WorldDef};
+
+fn run() {
+    match simkit::focus() {
+        "C40" => gpsd::run(),
+        _ => csptp::run(),
+    }
+}
+
+fn main() {
+    if let Ok(h) = std::env::var("VSIM_W8_DECODE") {
+        // debugging aid: show how statime-wire and the oracle's parser see a datagram
+        let bytes: Vec<u8> = (0..h.len() / 2).map(|i| u8::from_str_radix(&h[2 * i..2 * i + 2], 16).unwrap()).collect();
+        println!("statime-wire: {:?}", statime_wire::Message::deserialize(&bytes));
+        println!("oracle: {:?}", ptpwire::parse(&bytes));
+        return;
+    }
+    let p = |id, quick_runs, thorough_runs, event_cap, rule, assumptions| Property {
+        id,
+        level: Level::Exploration,
+        quick_runs,
+        thorough_runs,
+        quick_wall_s: 75.0,
+        thorough_wall_s: 600.0,
+        event_cap,
+        enumerate: None,
+        rule,
+        assumptions,
+    };
+    const CSPTP_ASSUME: &[&str] = &[
+        "sockets (statime_netptp) are replaced by simulated ClientSocket / ServerSocket implementations on SimNet; the daemon's thin socket wrappers in ntpd/src/daemon/csptp_{source,server}.rs (timestamp unit conversion) are not executed",
+        "all datagrams addressed to the client reach whichever request socket is currently open (one shared port), which is harsher than per-request ephemeral ports",
+        "build has debug assertions and overflow checks on (the repo's release profile has both off): panics that only exist under those are reported with that caveat",
+    ];
+    cli_main(WorldDef {
+        name: "w8",
+        run,
+        properties: vec![
+            p(
+                "C44",
+                60_000,
+                2_000_000,
+                20_000,
+                "one run = the real CsptpSource::run polling 3-40 times against the real server, a byzantine server or both over a faulty network; every measurement handed to the recording controller must be explained by datagrams with the current request's ids received for that request; any panic of run() is a violation",
+                CSPTP_ASSUME,
+            ),
+            p(
+                "C45",
+                60_000,
+                2_000_000,
+                20_000,
+                "one run = the real serve() loop fed by the real client and/or a fuzzing requester while the daemon state is rewritten; every send_event/send_general is judged against the datagram serve() received last, decoded by the oracle's own parser",
+                CSPTP_ASSUME,
+            ),
+            p(
+                "C40",
+                60_000,
+                2_000_000,
+                5_000,
+                "one run = the real SockSourceTask reading 10-200 simulated GPSd datagrams; each recorded measurement is attributed to the datagram being processed and judged by the oracle's own decoder of the 40-byte sample",
+                &[
+                    "tokio::net::UnixDatagram is replaced (hook H11) by a queue that mirrors recv(2) on AF_UNIX/SOCK_DGRAM: one datagram per call, silently cut to the caller's buffer length",
+                    "the kernel clock is SimClock; the controller behind the real OneWaySourceControllerWrapper only records",
+                    "build has debug assertions on (NtpDuration::from_seconds asserts finiteness there); with them off a non-finite offset becomes a garbage measurement instead of a task panic",
+                ],
+            ),
+        ],
+        real_components: &[
+            "statime_csptp::CsptpSource::run (request loop, collect_response, add_correction, status update)",
+            "statime_csptp::serve / handle_packet, CsptpMessage (de)serialisation and response / follow-up construction, CsptpManager",
+            "statime_wire PTP codec",
+            "ntpd::daemon::sock_source::SockSourceTask (spawn, create_socket, run, deserialize_sample, measurement construction)",
+            "ntp_proto::OneWaySource, OneWaySourceControllerWrapper, TimeSyncControllerWrapper::run",
+        ],
+        stub_components: &[
+            "statime_netptp sockets -> simulated ClientSocket/ServerSocket on SimNet with simulator-owned clocks",
+            "ntpd csptp_source.rs / csptp_server.rs socket wrappers and task spawning -> not run",
+            "tokio::net::UnixDatagram -> simulated datagram endpoint (H11)",
+            "KalmanClockController -> recording InternalTimeSyncController (C40 only)",
+        ],
+    })
+}
